@@ -418,8 +418,10 @@ def teleport(
             and isinstance(state.grid[position], Telepod)
             and state.grid[position].color == telepod.color
         ]
-        i = rng.choice(len(positions))
-        state.agent.position = positions[i]
+        # NOTE: a telepod without a same-colored partner does not teleport
+        if positions:
+            i = rng.choice(len(positions))
+            state.agent.position = positions[i]
 
 
 def factory(name: str, **kwargs) -> TransitionFunction:
